@@ -266,10 +266,15 @@ def check_refuse(ctx):
     fn = ctx.prog.func(SH, "write_table_hdf5", R)
     flow = A.Flow(fn)
     muts = []
+    OG, NM = "output_group", "name"
     for n in A.walk_local(fn):
         if isinstance(n, ast.Call) and A.last_attr(n) == "resize":
             muts.append(A.enclosing_stmt(n))
-        if isinstance(n, ast.Assign) and isinstance(n.targets[0], ast.Subscript) and isinstance(n.targets[0].slice, ast.Slice) and "output_group" in A.unparse(n.targets[0]):
+            recv = A.inline_temporaries(n.func.value, A.enclosing_stmt(n), fn)
+            if isinstance(recv, ast.Subscript) and isinstance(recv.value, ast.Name) and isinstance(recv.slice, ast.Name):
+                OG, NM = recv.value.id, recv.slice.id   # the group / dataset-name locals, whatever they are called
+    for n in A.walk_local(fn):
+        if isinstance(n, ast.Assign) and isinstance(n.targets[0], ast.Subscript) and isinstance(n.targets[0].slice, ast.Slice) and OG in A.unparse(A.inline_temporaries(n.targets[0].value, n, fn)):
             muts.append(n)
     if len(muts) < 2:
         ctx.violate(R, fn, "append = resize to old+new, write the new rows after the old ones",
@@ -320,12 +325,15 @@ def check_refuse(ctx):
         ctx.check(R, s, "comparison is existing header vs this table", oka, "compares %s" % [a[:50] for a in args], key="dtype-args")
     ctx.check(R, first, "dtype mismatch is refused before the dataset is touched", okd, why, key="dtype-dom")
     # (c) missing metadata
-    mm = [s for s in A.walk_local(fn) if isinstance(s, ast.If) and "meta_path(name) not in output_group" in A.unparse(s.test)]
+    mm = [s for s in A.walk_local(fn) if isinstance(s, ast.If) and "meta_path(%s) not in %s" % (NM, OG) in A.unparse(s.test)]
     okm = bool(mm) and A.always_raises(mm[0].body)
     ctx.check(R, fn, "appending to a table without stored metadata raises", okm, "no raise when the existing table has no metadata header", key="nometa")
     # existing header read from the file being appended to
-    eh = [s for s in A.walk_local(fn) if isinstance(s, ast.Assign) and canon(s.targets[0]) == "existing_header" and not (isinstance(s.value, ast.Constant))]
-    ok_eh = len(eh) == 1 and "output_group[meta_path(name)]" in A.unparse(eh[0].value)
+    # the header compared against (first argument role of the dtype comparison / metadata merge) is read from the target dataset's own metadata
+    eh = [s for s in A.walk_local(fn) if isinstance(s, ast.Assign) and isinstance(s.targets[0], ast.Name) and not (isinstance(s.value, ast.Constant))
+          and "%s[meta_path(%s)]" % (OG, NM) in A.unparse(s.value) and "get_header_from_yaml" in A.unparse(s.value)]
+    ehn = eh[0].targets[0].id if len(eh) == 1 else None
+    ok_eh = ehn is not None and any(A.call_name(c_) == "_custom_tbl_dtype_compare" and any(ehn + "['datatype']" == A.unparse(a_) or ehn + '["datatype"]' == A.unparse(a_) for a_ in c_.args) for c_ in A.calls_in(fn))
     ctx.check(R, fn, "existing header is read from the target dataset's metadata", ok_eh, "existing_header = %s" % (A.unparse(eh[0].value)[:60] if eh else None), key="existing")
     # append writes after the old rows
     sa = [s for s in muts if isinstance(s, ast.Assign)]
@@ -335,8 +343,8 @@ def check_refuse(ctx):
         lo = A.inline_temporaries(sa[0].targets[0].slice.lower, sa[0], fn) if sa[0].targets[0].slice.lower is not None else None
         rz = [c for c in A.calls_in(rs[0]) if A.last_attr(c) == "resize"][0]
         newsize = A.inline_temporaries(rz.args[0], rs[0], fn) if rz.args else None
-        ok_app = lo is not None and canon(lo) == canon(parse("len(output_group[name])")) and newsize is not None and \
-            canon(newsize) in (canon(parse("(len(output_group[name]) + len(table),)")), canon(parse("len(output_group[name]) + len(table)")))
+        ok_app = lo is not None and canon(lo) == canon(parse("len(%s[%s])" % (OG, NM))) and newsize is not None and \
+            canon(newsize) in (canon(parse("(len(%s[%s]) + len(table),)" % (OG, NM))), canon(parse("len(%s[%s]) + len(table)" % (OG, NM))))
         ok_app = ok_app and rs[0].lineno < sa[0].lineno and canon(sa[0].value) == canon(parse("table.as_array()")) and sa[0].targets[0].slice.upper is None
     ctx.check(R, first, "append = resize to old+new, write the new rows after the old ones", ok_app, "resize/assignment do not implement concatenation", key="concat")
     # the comparison helper itself
@@ -396,7 +404,12 @@ def check_paths(ctx):
         if isinstance(s.value, ast.Call) and canon(s.value.func) == "cls" and A.get_arg(s.value, 0, "samples") is not None:
             a = s.value
             kw = [k for k in a.keywords if k.arg is None]
-            okr = canon(A.get_arg(a, 0, "samples")) == "tbl" and len(kw) == 1 and canon(kw[0].value) == "tbl.meta"
+            # the object is rebuilt from the table that was read and from that same table's metadata
+            smp = A.get_arg(a, 0, "samples")
+            okr = isinstance(smp, ast.Name) and len(kw) == 1 and canon(kw[0].value) == smp.id + ".meta"
+            if okr:
+                srcs = {A.call_name(x) for x in A.strip_ifexp(fl.resolve(smp, at=s)) if isinstance(x, ast.Call)}
+                okr = srcs == {"QTable.read"}
             why = "read() returns `%s`" % A.unparse(s.value)
     ctx.check(R, rf, "read() returns cls(samples=tbl, **tbl.meta)", okr, why, key="read-ret")
     qr = [c for c in A.calls_in(rf) if A.call_name(c) == "QTable.read"]
@@ -406,7 +419,11 @@ def check_paths(ctx):
     ctx.check(R, rf, "read() reads the dataset at path (default cls._hdf5_path)", okq, "QTable.read is not given path=cls._hdf5_path by default", key="read-path")
     # FITS epoch
     w_ep = [s for s in A.walk_local(wf) if isinstance(s, ast.Assign) and "__t_ref_bmjd" in A.unparse(s.targets[0])]
-    okw = len(w_ep) == 1 and canon(w_ep[0].value) == canon(parse("t.meta.pop('t_ref').tcb.mjd"))
+    okw = False
+    if len(w_ep) == 1:
+        tg = w_ep[0].targets[0]
+        tname = dotted(tg.value.value) if isinstance(tg, ast.Subscript) and isinstance(tg.value, ast.Attribute) else None
+        okw = tname is not None and canon(w_ep[0].value) == canon(parse("%s.meta.pop('t_ref').tcb.mjd" % tname))
     ctx.check(R, wf, "FITS: reference epoch written as TCB MJD", okw, "writes `%s`" % (A.unparse(w_ep[0].value) if w_ep else None), key="fits-write")
     r_ep = [c for c in A.calls_in(rf) if A.call_name(c) == "Time" and "__t_ref_bmjd" in A.unparse(c)]
     okf = len(r_ep) == 1 and A.str_const(A.get_arg(r_ep[0], None, "format") or ast.Constant(value=None)) == "mjd" and A.str_const(A.get_arg(r_ep[0], None, "scale") or ast.Constant(value=None)) == "tcb"
